@@ -151,21 +151,32 @@ Qed.
 (** ** histories with clones: every public operation of HeapRun plus [x = x.clone()] *)
 From VF Require Import Enc LruStep.
 
-Inductive hcop := COp (o : hop) | CClone.
+(** what a call reports: the result of a HeapRun operation, or the yields of an iterator script *)
+Definition yields3 := (list (option entry * nat) * list (option entry * nat) * list (option entry * nat))%type.
+Inductive cout := CO (o : hout) | CI (ys : yields3).
 
-Definition hcstep (h : heap) (q : hlru) (o : hcop) : hres (heap * hlru * hout) :=
+Inductive hcop := COp (o : hop) | CClone | CIter (kd : iter_kind) (pre pa pb : list req).
+
+(** a mutable iterator is not [Clone]: its script has no clone phase *)
+Definition hcop_ok (o : hcop) : Prop :=
+  match o with CIter kd _ _ pb => ik_mut kd = true -> pb = [] | _ => True end.
+
+Definition hcstep (h : heap) (q : hlru) (o : hcop) : hres (heap * hlru * cout) :=
   match o with
-  | COp o => hstep h q o
-  | CClone => hdo (h', q') <- h_clone_replace h q; HOk (h', q', OUnit)
+  | COp o => hdo (h', q', r) <- hstep h q o; HOk (h', q', CO r)
+  | CClone => hdo (h', q') <- h_clone_replace h q; HOk (h', q', CO OUnit)
+  | CIter kd pre pa pb => hdo (h', ys) <- h_iter_script h q kd pre pa pb; HOk (h', q, CI ys)
   end.
 
-Definition lcstep (s : lru) (o : hcop) : lru * hout :=
+Definition lcstep (s : lru) (o : hcop) : lru * cout :=
   match o with
-  | COp o => HeapRun.lstep s o
-  | CClone => (Lru.clone s, OUnit)
+  | COp o => (fst (HeapRun.lstep s o), CO (snd (HeapRun.lstep s o)))
+  | CClone => (Lru.clone s, CO OUnit)
+  | CIter kd pre pa pb => (with_items s (snd (iter_script kd pre pa pb (items s))),
+                           CI (fst (iter_script kd pre pa pb (items s))))
   end.
 
-Fixpoint hcrun (h : heap) (q : hlru) (os : list hcop) : hres (heap * hlru * list hout) :=
+Fixpoint hcrun (h : heap) (q : hlru) (os : list hcop) : hres (heap * hlru * list cout) :=
   match os with
   | [] => HOk (h, q, [])
   | o :: rest =>
@@ -174,7 +185,7 @@ Fixpoint hcrun (h : heap) (q : hlru) (os : list hcop) : hres (heap * hlru * list
     HOk (h2, q2, r :: rs)
   end.
 
-Fixpoint lcrun (s : lru) (os : list hcop) : lru * list hout :=
+Fixpoint lcrun (s : lru) (os : list hcop) : lru * list cout :=
   match os with
   | [] => (s, [])
   | o :: rest => let '(s1, r) := lcstep s o in let '(s2, rs) := lcrun s1 rest in (s2, r :: rs)
@@ -207,27 +218,46 @@ Qed.
 Lemma hop_lstep_inv s o : lru_inv s -> lru_inv (fst (HeapRun.lstep s o)).
 Proof. intros H. rewrite lstep_same_state. now apply lstep_inv. Qed.
 
+Lemma iter_inv s kd pre pa pb : lru_inv s -> lru_inv (with_items s (snd (iter_script kd pre pa pb (items s)))).
+Proof.
+  intros H. pose proof (lstep_inv s (LIter kd pre pa pb) H) as Hi. cbn [LruStep.lstep] in Hi.
+  destruct (iter_script kd pre pa pb (items s)) as [[[y0 ya] yb] l']. exact Hi.
+Qed.
+
+Theorem iter_refines h q s kd pre pa pb :
+  R h q s -> (ik_mut kd = true -> pb = []) ->
+  exists h', h_iter_script h q kd pre pa pb = HOk (h', fst (iter_script kd pre pa pb (items s))) /\
+             R h' q (with_items s (snd (iter_script kd pre pa pb (items s)))).
+Proof.
+  intros (l & Hwf & Ht & El & Ec) Hmut.
+  destruct (fam_iter_script h [] q l [] [] kd pre pa pb (R_fam _ _ _ Hwf Ht) Hmut) as (h' & l' & E & Hf & He & _).
+  rewrite El in E, He. exists h'. split; [exact E|].
+  destruct (fam_R _ _ _ Hf) as (Hwf' & Ht'). exists l'. auto.
+Qed.
+
 Theorem hcstep_refines h q s o :
-  R h q s -> lru_inv s ->
+  R h q s -> lru_inv s -> hcop_ok o ->
   exists h' q', hcstep h q o = HOk (h', q', snd (lcstep s o)) /\ R h' q' (fst (lcstep s o)) /\ lru_inv (fst (lcstep s o)).
 Proof.
-  intros HR Hinv. destruct o as [o|]; cbn [hcstep lcstep].
-  - destruct (step_refines h q s o HR) as (h' & q' & E & HR' & _). exists h', q'. split; [exact E|]. split; [exact HR'|].
-    now apply hop_lstep_inv.
+  intros HR Hinv Hok. destruct o as [o| |kd pre pa pb]; cbn [hcstep lcstep fst snd].
+  - destruct (step_refines h q s o HR) as (h' & q' & E & HR' & _). rewrite E. cbn [hbind].
+    exists h', q'. split; [reflexivity|]. split; [exact HR'|]. now apply hop_lstep_inv.
   - destruct (clone_refines h q s HR (proj2 Hinv)) as (h' & q' & E & HR' & _). rewrite E. cbn [hbind fst snd].
     rewrite (clone_id s Hinv). exists h', q'. auto.
+  - destruct (iter_refines h q s kd pre pa pb HR Hok) as (h' & E & HR'). rewrite E. cbn [hbind].
+    exists h', q. split; [reflexivity|]. split; [exact HR'|]. now apply iter_inv.
 Qed.
 
 Theorem hcrun_refines os : forall h q s,
-  R h q s -> lru_inv s ->
+  R h q s -> lru_inv s -> Forall hcop_ok os ->
   exists h' q', hcrun h q os = HOk (h', q', snd (lcrun s os)) /\ R h' q' (fst (lcrun s os)).
 Proof.
-  induction os as [|o rest IH]; intros h q s HR Hinv.
+  induction os as [|o rest IH]; intros h q s HR Hinv Hok.
   - cbn. do 2 eexists. split; [reflexivity|exact HR].
-  - cbn [hcrun lcrun].
-    destruct (hcstep_refines h q s o HR Hinv) as (h1 & q1 & E1 & HR1 & Hinv1).
+  - cbn [hcrun lcrun]. inversion Hok as [|? ? Ho Hrest]; subst.
+    destruct (hcstep_refines h q s o HR Hinv Ho) as (h1 & q1 & E1 & HR1 & Hinv1).
     rewrite E1. cbn [hbind]. destruct (lcstep s o) as [s1 r1]. cbn [fst snd] in *.
-    destruct (IH h1 q1 s1 HR1 Hinv1) as (h2 & q2 & E2 & HR2).
+    destruct (IH h1 q1 s1 HR1 Hinv1 Hrest) as (h2 & q2 & E2 & HR2).
     rewrite E2. cbn [hbind]. destruct (lcrun s1 rest) as [s2 rs]. cbn [fst snd] in *.
     do 2 eexists. split; [reflexivity|exact HR2].
 Qed.
@@ -235,26 +265,31 @@ Qed.
 (** every history of public calls and clones, then the final drop: no memory error, the results of
     layer L, every cell freed *)
 Theorem clone_history_safe c cb os :
+  Forall hcop_ok os ->
   exists h q h',
     hcrun (fst (hnew heap0 c)) (snd (hnew heap0 c)) os = HOk (h, q, snd (lcrun (lru_new c cb) os)) /\
     R h q (fst (lcrun (lru_new c cb) os)) /\
     h_drop h q = HOk h' /\ (forall a, cells h' a = Free).
 Proof.
+  intros Hok.
   assert (Hinv : lru_inv (lru_new c cb)) by (split; [constructor|cbn; lia]).
-  destruct (hcrun_refines os _ _ _ (new_refines c cb) Hinv) as (h & q & E & HR).
+  destruct (hcrun_refines os _ _ _ (new_refines c cb) Hinv Hok) as (h & q & E & HR).
   destruct (drop_refines h q _ HR) as (h' & Ed & Hall).
   exists h, q, h'. auto.
 Qed.
 
 (** non-vacuity: clone a cache that has recycled a node, keep using the clone, clone again *)
 Example clone_history_runs :
-  match hcrun (fst (hnew heap0 2)) (snd (hnew heap0 2))
-              [COp (HPut 1 10); COp (HPut 2 20); COp (HPut 3 30); CClone; COp (HGetMut 2 (Some 21));
-               COp (HPut 4 40); CClone; COp (HRemove 3)]%Z with
-  | HOk (h, q, outs) => outs = snd (lcrun (lru_new 2 true)
-              [COp (HPut 1 10); COp (HPut 2 20); COp (HPut 3 30); CClone; COp (HGetMut 2 (Some 21));
-               COp (HPut 4 40); CClone; COp (HRemove 3)]%Z)
-      /\ hhead q = 8 /\ In (OPut (PEvicted 3%Z 30%Z)) outs
+  let os := [COp (HPut 1 10); COp (HPut 2 20); COp (HPut 3 30); CClone; COp (HGetMut 2 (Some 21));
+             CIter (mkKind true true 0) [(Front, Some 77)] [(Back, None)] [];
+             COp (HPut 4 40); CClone; COp (HRemove 3)]%Z in
+  Forall hcop_ok os /\
+  match hcrun (fst (hnew heap0 2)) (snd (hnew heap0 2)) os with
+  | HOk (h, q, outs) => outs = snd (lcrun (lru_new 2 true) os)
+      /\ hhead q = 8 /\ In (CO (OPut (PEvicted 3%Z 77%Z))) outs
   | HErr _ => False
   end.
-Proof. vm_compute. split; [reflexivity|]. split; [reflexivity|]. do 5 right. now left. Qed.
+Proof.
+  cbn zeta. split; [repeat constructor; cbn; intros; reflexivity|].
+  vm_compute. split; [reflexivity|]. split; [reflexivity|]. do 6 right. now left.
+Qed.
